@@ -160,6 +160,48 @@ def call_op(A, B, c, sampling=None):
                                     method=c.get('method', 'linear'), fill_value=fill_arg(c['fill'], c.get('fform')))
 
 
+def alias_probe(r, operands):
+    """identity and aliasing of a result with respect to its Spectrum operands; then the result is edited in place through
+    the public API (crop, to, value assignment, element write into its value array) and the operands are looked at again"""
+    info = {'is_operand': any(r is o for o in operands),
+            'value_shared': any(np.shares_memory(np.asarray(r.value), np.asarray(o.value)) for o in operands),
+            'wave_shared': any(np.shares_memory(np.asarray(r.wave), np.asarray(o.wave)) for o in operands)}
+    before = [snap(o) for o in operands]
+    w = np.asarray(r.wave, dtype=float)
+    edits = []
+    if w.size >= 3:
+        edits.append(lambda: r.crop(float(w[1]), float(w[-2])))
+    edits.append(lambda: r.to('um' if r.waveunit != 'um' else 'nm'))
+
+    def write_values():
+        v = r.value
+        if isinstance(v, np.ndarray) and v.ndim == 1 and v.size and v.flags.writeable:
+            v[...] = 7
+    edits.append(write_values)
+    edits.append(lambda: setattr(r, 'value', np.zeros(np.asarray(r.wave).shape)))
+    for e in edits:
+        try:
+            e()
+        except Exception:
+            pass
+    info['operand_changed_by_edit'] = [snap(o) for o in operands] != before
+    return info
+
+
+def alias_verdict(info):
+    if not info:
+        return None
+    if info['is_operand']:
+        return 'the result is the operand itself, not a new spectrum'
+    if info['value_shared']:
+        return 'the result shares its value array with an operand'
+    if info['operand_changed_by_edit']:
+        return 'editing the RESULT in place (crop / to / value assignment) changed an operand'
+    if info['wave_shared']:
+        STATS['result shares the operand\'s wave ARRAY (scalar/vector operands; harmless through the Spectrum API, see report)'] += 1
+    return None
+
+
 def attempt(fn):
     try:
         return res(fn())
@@ -224,6 +266,8 @@ def run_impl_(c):
             if not (is_plain(c['a']) and is_plain(c['b']) and not c.get('sform') and not c.get('fform')):
                 cp = {k: v for k, v in c.items() if k not in ('sform', 'fform')}
                 out['twin'] = attempt(lambda: call_op(mk(c['a'], plain=True), mk(c['b'], plain=True), cp))
+            out['alias'] = alias_probe(r, [A, B])
+            out['unchanged'] = out['unchanged'] and not out['alias']['operand_changed_by_edit']
             return out
         if op == 'hist':
             return run_history(c)
@@ -240,18 +284,42 @@ def run_impl_(c):
             return out
         S = mk(c['s'])
         ss = snap(S)
+        if op == 'helper':
+            rad = C.import_lentil().radiometry
+            try:
+                k = c['kind']
+                if k == 'path1':
+                    r = rad.path_transmission([S])
+                elif k == 'path_material':
+                    r = rad.path_transmission([rad.Material(transmission=S, contam=1)])
+                elif k == 'material_t':
+                    r = rad.Material(transmission=S, contam=1).transmission
+                else:
+                    r = rad.Material(emission=S, contam=1.0).emission
+                out = res(r)
+                out['new'] = r is not S
+                out['alias'] = alias_probe(r, [S])
+            except Exception as e:
+                out = {'err': type(e).__name__}
+            out['unchanged'] = snap(S) == ss
+            return out
         if op == 'scalar':
-            x = int(F(c['c'])) if c.get('ctype') == 'int' else fl(c['c'])
+            x = {'int': lambda: int(F(c['c'])), 'bool': lambda: bool(int(F(c['c']))),
+                 'npfloat64': lambda: np.float64(fl(c['c']))}.get(c.get('ctype'), lambda: fl(c['c']))()
         elif op == 'vector':
             x = [fl(v) for v in c['l']]
             x = {'list': x, 'tuple': tuple(x), 'ndarray': np.array(x, dtype=float)}[c.get('vtype', 'list')]
         else:
             x = other_operand(c['kind'])
         try:
-            r = PYOP[c['o']](x, S) if c['refl'] else PYOP[c['o']](S, x)
+            if c.get('call') == 'method' and not c['refl']:
+                r = getattr(S, METH[c['o']])(x)
+            else:
+                r = PYOP[c['o']](x, S) if c['refl'] else PYOP[c['o']](S, x)
             if isinstance(r, type(S)):
                 out = res(r)
                 out['new'] = r is not S
+                out['alias'] = alias_probe(r, [S])
             else:
                 out = {'err': 'NotASpectrum:' + type(r).__name__}
         except Exception as e:
@@ -330,6 +398,8 @@ def encode(c):
         return [3, int(c['refl']), OPS.index(c['o'])] + enc_spec(c['s']) + C.enc_list([F(x) for x in c['l']], C.enc_q)
     if op == 'other':
         return [4, int(c['refl']), OPS.index(c['o'])] + enc_spec(c['s'])
+    if op == 'helper':     # every helper multiplies by 1 (contam / the running product)
+        return [2, 1, OPS.index('mul')] + enc_spec(c['s']) + C.enc_q(F(1))
     if op == 'ctor':
         return [5] + enc_spec(c['s'])
     if op == 'sample':
@@ -430,7 +500,8 @@ def physical(sd, unit):
 
 
 _ANA = {}
-STATS = {'sample_count_changed_by_unit_conversion (ratio within 1e-9 of an integer, float artefact)': 0}
+STATS = {'sample_count_changed_by_unit_conversion (ratio within 1e-9 of an integer, float artefact)': 0,
+         'result shares the operand\'s wave ARRAY (scalar/vector operands; harmless through the Spectrum API, see report)': 0}
 
 
 def analyse(c):
@@ -612,6 +683,9 @@ def oracle(c, impl):
             return f'operation raised {impl["err"]}'
         if not impl.get('new'):
             return 'result is not a new object'
+        m = alias_verdict(impl.get('alias'))
+        if m:
+            return m
         if impl['wu'] != c['a']['wu'] or impl['vu'] != c['a']['vu']:
             return 'result does not carry the left operand\'s units'
         m = verify_result(c, an, impl, 'result')
@@ -659,6 +733,15 @@ def oracle(c, impl):
     v = [F(x) for x in s['value']]
     if op == 'other':
         return None if impl.get('err') == 'TypeError' else f'unsupported operand did not raise TypeError: {impl.get("err", "value")}'
+    if op == 'helper':
+        if 'err' in impl:
+            return f'{c["kind"]} raised {impl["err"]}'
+        m = alias_verdict(impl.get('alias'))
+        if m:
+            return f'{c["kind"]}: {m}'
+        if [F(x) for x in impl['wave']] != w or [F(x) for x in impl['value']] != v or (impl['wu'], impl['vu']) != (s['wu'], s['vu']):
+            return f'{c["kind"]} of a single spectrum is not that spectrum'
+        return None
     if op == 'scalar':
         other = [F(c['c'])] * len(v)
     else:
@@ -673,8 +756,9 @@ def oracle(c, impl):
         if c['refl'] and impl['err'] == 'TypeError':
             return None        # reflected forms are not pinned by the property (only __rmul__ exists)
         return f'operation raised {impl["err"]}'
-    if not impl.get('new'):
-        return 'result is not a new object'
+    m = alias_verdict(impl.get('alias'))
+    if m or not impl.get('new'):
+        return m or 'result is not a new object'
     if (impl['wu'], impl['vu']) != (s['wu'], s['vu']):
         return 'result units differ from the operand\'s'
     if [F(x) for x in impl['wave']] != w:
@@ -1105,12 +1189,20 @@ def gen_other(rng):
         s['vdt'] = rng.choice(['int64', 'int32', 'pylist', 'pytuple'])
         if o == 'pow':
             o = 'mul'
-    if t < 0.4:
+    if t < 0.08:
+        return {'op': 'helper', 's': s, 'kind': rng.choice(['path1', 'path_material', 'material_t', 'material_e'])}
+    if t < 0.45:
         cval = rng.choice([0, 1, 2, 3, -1, -2, F(1, 2), F(-3, 4), 4])
         if o == 'pow' and not refl:
             cval = rng.choice([0, 1, 2, 3, -1, -2])
-        c = {'op': 'scalar', 'o': o, 'refl': refl, 's': s, 'c': str(cval),
-             'ctype': 'int' if F(cval).denominator == 1 and rng.random() < 0.5 else 'float'}
+        ctype = 'int' if F(cval).denominator == 1 and rng.random() < 0.5 else 'float'
+        if rng.random() < 0.45:
+            # the neutral element of the operator (and of the others), in every spelling: 0, 0.0, 1, 1.0, True, np.float64
+            cval = 0 if (o in ('add', 'sub')) != (rng.random() < 0.15) else 1
+            ctype = rng.choice(['int', 'float', 'npfloat64'] + (['bool'] if cval == 1 else []))
+        c = {'op': 'scalar', 'o': o, 'refl': refl, 's': s, 'c': str(cval), 'ctype': ctype}
+        if not refl and rng.random() < 0.4:
+            c['call'] = 'method'
         if o == 'pow' and refl:
             c['s']['value'] = [str(rng.randint(-2, 3)) for _ in w]
         return c
@@ -1119,8 +1211,13 @@ def gen_other(rng):
         l = [F(rng.choice([1, 2, -1, 3, -2, 0, 4])) for _ in range(m)]
         if o == 'pow' and refl:
             s['value'] = [str(rng.randint(-2, 3)) for _ in w]
-        return {'op': 'vector', 'o': o, 'refl': refl, 's': s, 'l': [str(x) for x in l],
-                'vtype': rng.choice(['list', 'tuple', 'ndarray'])}
+        if m == n and rng.random() < 0.2:      # a vector of neutral elements
+            l = [F(0 if o in ('add', 'sub') else 1)] * n
+        c = {'op': 'vector', 'o': o, 'refl': refl, 's': s, 'l': [str(x) for x in l],
+             'vtype': rng.choice(['list', 'tuple', 'ndarray'])}
+        if not refl and rng.random() < 0.4:
+            c['call'] = 'method'
+        return c
     return {'op': 'other', 'o': o, 'refl': refl, 's': s, 'kind': rng.choice(['str', 'none', 'complex', 'dict', 'set'])}
 
 
@@ -1191,7 +1288,7 @@ def nontrivial(c):
         return True
     if c['op'] == 'spec':
         return not (c['a']['wave'] == c['b']['wave'] and c['a']['wu'] == c['b']['wu'])
-    if c['op'] in ('scalar', 'vector'):
+    if c['op'] in ('scalar', 'vector', 'helper'):
         return len(c['s']['wave']) > 1
     return c['op'] == 'sample'
 
